@@ -191,8 +191,20 @@ fn check_constant(rep: &mut Report, d: usize, c: f64, grid: usize) -> bool {
         s.next_source_frame(c);
     }
     let mut worst = 0.0f64;
-    for g in 0..grid {
-        let x = g as f64 / grid as f64;
+    // the grid, and then the doubles adjacent to the ends of [0, 1): the 64 nearest below 1, a
+    // geometric approach to 1, to 0 and to 1/2 from both sides, the smallest positive values (a
+    // tap's argument is then tiny, or within an ulp of a multiple of pi)
+    let mut extra: Vec<f64> = (1..=64u64).map(|k| f64::from_bits(1.0f64.to_bits() - k)).collect();
+    for e in 1..=60 {
+        let p = (2.0f64).powi(-e);
+        extra.extend_from_slice(&[1.0 - p, p, 0.5 + p, 0.5 - p]);
+    }
+    extra.extend_from_slice(&[f64::from_bits(1), f64::MIN_POSITIVE, 1e-300, 1e-17, 1e-16]);
+    for g in 0..grid + extra.len() {
+        let x = if g < grid { g as f64 / grid as f64 } else { extra[g - grid] };
+        if !(x >= 0.0 && x < 1.0) {
+            continue;
+        }
         let v = s.interpolate(x);
         let err = (v - c).abs() / c.abs();
         worst = worst.max(err);
